@@ -164,7 +164,7 @@ class World(BaseWorld):
         st = Streams(seed)
         rc, ro = st.get('config'), st.get('ops')
         w = {'write': rc.uniform(1, 4), 'delete': rc.uniform(0, 0.4), 'set_domain': rc.uniform(0.3, 1.5), 'edit_domain': rc.uniform(0, 1.0),
-             'ff_calc': rc.uniform(1.5, 4), 'arm_eio': rc.uniform(0, 1.0), 'fa_new': rc.uniform(0.5, 2.5), 'fa_mutate': rc.uniform(0.3, 2),
+             'ff_calc': rc.uniform(1.5, 4), 'arm_eio': rc.uniform(0, 1.0), 'arm_swap': rc.uniform(0, 1.0), 'fa_new': rc.uniform(0.5, 2.5), 'fa_mutate': rc.uniform(0.3, 2),
              'fa_calc': rc.uniform(1, 3), 'build': rc.uniform(0.5, 2.5)}
         dom_kinds = ('set_domain', 'edit_domain')
         names = sorted(x for x in w if x not in dom_kinds)
@@ -194,11 +194,18 @@ class World(BaseWorld):
                     ops.append({'op': 'delete', 'name': ro.choice(NAMES)})
                 elif k == 'ff_calc':
                     ops.append({'op': 'ff_calc', 'name': pick_file(), 'reuse': ro.random() < 0.6})
+                elif k == 'arm_swap':
+                    wr = self.gen_write(ro, name=pick_file())
+                    wr['op'] = 'arm_swap'
+                    wr['fault'] = ro.choice(['clean', 'clean', 'clean', 'missing', 'prefix'])
+                    ops.append(wr)
                 elif k == 'arm_eio':
                     ops.append({'op': 'arm_eio', 'name': pick_file(), 'frac': ro.choice([0.0, 0.1, 0.5, 0.9, 0.99, 1.0, 2.0])})
                 elif k == 'fa_new':
                     ops.append({'op': 'fa_new', 'idx': ro.randrange(3), 'container': ro.choice(['list', 'ndarray', 'ndarray', 'tuple', 'view']),
                                 'n': ro.choice(NSPEC), 'with_k': ro.random() < 0.5, 'kgrid': gen_kgrid(ro),
+                                # the k array has its own length: usually that of omega, sometimes the grid's while omega's is wrong
+                                'kn': ro.choice(['same', 'same', 'same', 'N', 'N', 'N-1']),
                                 'kcontainer': ro.choice(['list', 'ndarray', 'ndarray'])})
                     last_fa = ops[-1]['idx']
                 elif k == 'fa_mutate':
@@ -209,7 +216,7 @@ class World(BaseWorld):
                 elif k == 'build':
                     ops.append({'op': 'build', 'rank': ro.choice([1, 1, 2]), 'src': ro.choice(['file', 'file', 'array']), 'name': pick_file(),
                                 'idx': pick_fa(), 'where': ro.choice(['AA', 'all', 'AB']), 'reuse': ro.random() < 0.5})
-        faulty = any(o['op'] == 'arm_eio' or (o['op'] == 'write' and o['fault'] != 'clean') for o in ops)
+        faulty = any(o['op'] in ('arm_eio', 'arm_swap') or (o['op'] == 'write' and o['fault'] != 'clean') for o in ops)
         return {'config': {}, 'ops': ops, 'batch': 'fault_injecting' if faulty else 'fault_free'}
 
     # ------------------------------------------------------------------ oracle pieces
@@ -302,6 +309,16 @@ class World(BaseWorld):
                     ctx.probe('file_rewritten_under_live_object')
             elif name == 'delete':
                 disk.delete(op['name'])
+            elif name == 'arm_swap':
+                # content that will replace the file right after its next read-open
+                rs = np_rng(seed, 'write', step)
+                m = resolve_n(op['n'], N)
+                vals = omega_vals(m, rs, op.get('special'))
+                kcol = make_kcol(op['kgrid'], k, r, m, rs)
+                intended = render(op['layout'], kcol, vals, op['fmt'], op['header'], op['crlf'], op.get('nl', True))
+                cut = pick_cut(intended, op['cut'], rs)[0] if op['fault'] == 'prefix' else None
+                if disk.seam is not None and disk.files.get(op['name']) is not None:
+                    disk.swap[op['name']] = disk.durable(op['name'], intended, op['fault'], cut)
             elif name == 'arm_eio':
                 data = disk.files.get(op['name'])
                 if data is not None and disk.seam is not None:
@@ -336,7 +353,7 @@ class World(BaseWorld):
         else:
             obj = lib('FromFile()', pp.omega.FromFile, path)
         exp = self.expect_file(disk, nm, k, ctx)
-        fired0 = disk.eio_fired
+        fired0, swaps0 = disk.eio_fired, disk.swaps_fired
         try:
             with warnings.catch_warnings():
                 warnings.simplefilter('ignore')
@@ -344,43 +361,61 @@ class World(BaseWorld):
             exc = None
         except Exception as e:
             got, exc = None, e
+        allowed = [exp]
+        if disk.swaps_fired > swaps0:
+            # the file was replaced between two opens inside this one evaluation: a reader that opens once saw the old content, one
+            # that opens twice saw both -- the outcome must be right for the old content or for the new one, never a mixture
+            allowed.append(self.expect_file(disk, nm, k, ctx))
+            ctx.probe('replaced_during_evaluation')
         if disk.eio_fired > fired0:
             # the read failed mid-way: the only acceptable outcome is an exception
-            exp = ('raise', 'EIO mid-read')
+            allowed = [('raise', 'EIO mid-read')]
             ctx.probe('eio_mid_read')
         disk.eio.pop(nm, None)
-        ctx.log(expect=exp[0], raised=type(exc).__name__ if exc else None)
+        disk.swap.pop(nm, None)
+        ctx.log(expect=[e[0] for e in allowed], raised=type(exc).__name__ if exc else None)
+        first = None
+        for e in allowed:
+            v = self.judge_file(e, got, exc, k, step, ctx)
+            if v is None:
+                return
+            first = first or v
+        raise first
+
+    def judge_file(self, exp, got, exc, k, step, ctx):
+        """None if the outcome (got | exc) is acceptable for expectation exp, else the Violation"""
         if exp[0] == 'unjudged':
             ctx.probe('unjudged_' + ('threshold' if 'threshold' in exp[1] else 'columns'))
-            return
+            return None
         if exp[0] == 'raise':
             if exc is None:
-                raise Violation('mismatched_file_accepted', 'FromFile.calculate', {'why': exp[1], 'returned_len': int(np.size(got)),
-                                                                                   'grid': len(k)}, step)
+                return Violation('mismatched_file_accepted', 'FromFile.calculate', {'why': exp[1], 'returned_len': int(np.size(got)),
+                                                                                    'grid': len(k)}, step)
             ctx.probe('file_rejected')
             ctx.nontrivial = True
-            return
+            return None
         if exp[0] == 'onecol':
             vals = exp[1]
             if len(vals) == len(k):
                 if exc is not None:
-                    raise Violation('matching_file_rejected', 'FromFile.calculate', '%s: %s' % (type(exc).__name__, str(exc)[:120]), step)
+                    return Violation('matching_file_rejected', 'FromFile.calculate', '%s: %s' % (type(exc).__name__, str(exc)[:120]), step)
                 if not self.same_bits(np.asarray(got, dtype=float), vals):
-                    raise Violation('file_values_not_verbatim', 'FromFile.calculate', {'layout': '1col', 'n': len(vals)}, step)
+                    return Violation('file_values_not_verbatim', 'FromFile.calculate', {'layout': '1col', 'n': len(vals)}, step)
                 ctx.probe('onecol_verbatim')
             else:
                 # may return here; must be rejected when built/evaluated (op build)
                 ctx.probe('onecol_wronglen_at_calculate')
                 if exc is None and np.size(got) == len(k):
-                    raise Violation('mismatched_file_accepted', 'FromFile.calculate', {'why': 'one-column file of %d values returned %d values' % (
+                    return Violation('mismatched_file_accepted', 'FromFile.calculate', {'why': 'one-column file of %d values returned %d values' % (
                         len(vals), len(k))}, step)
-            return
+            return None
         # matching two-column file
         if exc is not None:
-            raise Violation('matching_file_rejected', 'FromFile.calculate', '%s: %s' % (type(exc).__name__, str(exc)[:120]), step)
+            return Violation('matching_file_rejected', 'FromFile.calculate', '%s: %s' % (type(exc).__name__, str(exc)[:120]), step)
         if not self.same_bits(np.ascontiguousarray(np.asarray(got, dtype=float)), exp[1]):
-            raise Violation('file_values_not_verbatim', 'FromFile.calculate', {'layout': '2col', 'n': len(exp[1])}, step)
+            return Violation('file_values_not_verbatim', 'FromFile.calculate', {'layout': '2col', 'n': len(exp[1])}, step)
         ctx.probe('twocol_verbatim')
+        return None
 
     # ---- FromArray
     def op_fa_new(self, pp, op, step, seed, fa, k, r, ctx):
@@ -401,7 +436,10 @@ class World(BaseWorld):
             oc = np.array(vals, dtype=float)
         kc = None
         if op['with_k']:
-            kcol = make_kcol(op['kgrid'], k, r, m, rs)
+            mk = m if op.get('kn', 'same') == 'same' else resolve_n(op['kn'], N)
+            if mk != m:
+                ctx.probe('fa_k_and_omega_lengths_differ')
+            kcol = make_kcol(op['kgrid'], k, r, mk, rs)
             kc = [float(x) for x in kcol] if op['kcontainer'] == 'list' else np.array(kcol, dtype=float)
         try:
             with warnings.catch_warnings():
@@ -547,7 +585,7 @@ class World(BaseWorld):
                     tab = [('A', 'A')]
                 for (a, b) in tab:
                     s.omega[a, b] = src
-        fired0 = disk.eio_fired
+        fired0, swaps0 = disk.eio_fired, disk.swaps_fired
         P = None
         exc = None
         stage = 'createPRISM'
@@ -562,6 +600,12 @@ class World(BaseWorld):
         except Exception as ex:
             exc = ex
         disk.eio.clear()
+        disk.swap.clear()
+        if disk.swaps_fired > swaps0:
+            # the file changed while the table was being evaluated (each pair re-reads it): which pairs saw which content is the
+            # reader's business; not judged here (FromFile.calculate under the same fault is, in op ff_calc)
+            ctx.probe('replaced_during_build')
+            return
         if disk.eio_fired > fired0:
             exp = ('raise', 'EIO mid-read')
             ctx.probe('eio_mid_read')
@@ -631,17 +675,17 @@ class World(BaseWorld):
     def expected_probes(self, tier):
         return ['torn_mid_number', 'torn_mid_row', 'torn_row_boundary', 'torn_last_number', 'lost_write_old_content_survives',
                 'file_rewritten_under_live_object', 'kcol_one_point_off', 'karray_one_point_off', 'onecol_wronglen_deferred_reject',
-                'eio_mid_read', 'single_row_two_col', 'fromfile_object_reused', 'build_with_reused_fromfile', 'onecol_verbatim',
+                'eio_mid_read', 'replaced_during_evaluation', 'single_row_two_col', 'fromfile_object_reused', 'build_with_reused_fromfile', 'onecol_verbatim',
                 'twocol_verbatim', 'array_verbatim_after_caller_mutation', 'caller_array_mutated_k', 'domain_edited_in_place',
                 'domain_via_dk', 'build_ok', 'build_rejected_at_createPRISM', 'build_rejected_at_cost', 'several_prism_objects_alive',
-                'fa_view', 'fa_list', 'fa_ndarray', 'file_rejected', 'array_rejected']
+                'fa_view', 'fa_list', 'fa_ndarray', 'file_rejected', 'array_rejected', 'fa_k_and_omega_lengths_differ']
 
     def rule(self):
         return ('Each run = one seed -> 1-4 episodes (a Domain change followed by 2-7 ops on that grid) over {set/replace Domain (length 2..100, dr or dk), edit Domain in place, write file (1|2 columns; '
                 'n in {N, N+-1, N-2, N/2, 2N, 0, 1, 2}; k column exact | shifted | rescaled | one point off by f x allclose tolerance | other domain '
                 '| r grid; 7 number formats; header, CRLF, no trailing newline, NaN/negative/huge values) under a durability fault {clean, torn '
                 'prefix (row boundary | mid row | mid number | inside last number | uniform), lost, empty, missing, duplicated, stale tail}, '
-                'delete, arm EIO after a fraction of the characters, FromFile.calculate (fresh or re-used object), FromArray from '
+                'delete, arm EIO after a fraction of the characters, arm a replacement of the file right after its next open (atomic rename: the open handle keeps the old content), FromFile.calculate (fresh or re-used object), FromArray from '
                 'list|tuple|ndarray|strided view with/without k, in-place mutation of the caller\'s omega/k arrays, FromArray.calculate, build '
                 'rank-1/2 System -> createPRISM -> cost}. Oracle: independent tokenizer of the durable bytes + allclose rule -> values bit-for-bit, '
                 'or must-raise; one-column wrong length may pass calculate but must raise by createPRISM/first cost; cases within 10% of the '
